@@ -99,6 +99,11 @@ def targeted_discs(rng):
     out.append(("shared+orphans", d))
     d2 = G.Disc([], {0: G.Performance("Solo", [0])}, {0: G.Patch("Q", [0])}, {0: G.Partial("R", [None, None, 0, None])}, {0: G.Sample("Only", W(rng, 300), start=10, sus_end=250, mode=6)})
     out.append(("no-volumes", d2))
+    # scattered directory slots: an orphan performance in a slot beyond the ID area's count, samples / partials / patches not in slots 0..n-1
+    d3 = G.Disc([G.Volume("VOL", [0])], {0: G.Performance("Kit", [3]), 5: G.Performance("SoftPad", [7])},
+                {3: G.Patch("Q3", [4]), 7: G.Patch("Q7", [9])}, {4: G.Partial("R4", [11, None, 2, None]), 9: G.Partial("R9", [None, 30, None, None])},
+                {11: G.Sample("Kick", W(rng, 5000), mode=0), 2: G.Sample("Snare", W(rng, 4608), mode=2), 30: G.Sample("PadOne", W(rng, 4700), mode=5, cluster_top=1)})
+    out.append(("scattered-slots", d3))
     return out
 
 
@@ -111,7 +116,7 @@ def run(ctx, rep: Report, deep: bool = False):
     )
     cases = []
     tds = targeted_discs(rng)
-    for tag, disc in tds if (deep or not ctx.quick) else tds[:3] + tds[5:]:
+    for tag, disc in tds if (deep or not ctx.quick) else tds[:3] + tds[7:]:
         for shape in (("contiguous",), ("reversed",), ("head-not-lowest",)) if (deep or not ctx.quick) else (("head-not-lowest",),):
             check_disc(rep, cases, ctx, disc, rng, tag + ":" + shape[0], shape)
         rep.feat("targeted")
